@@ -176,6 +176,19 @@ def rule_fanout(ctx, R):
                 ctx.check(ok, R, b, 'expected-count:' + ctor.rsplit('::', 1)[-1],
                           'count = %r' % e, 'the number of expected responses %r is not executors.len() * '
                           'tracks.len()' % e, c.ln)
+            for c in cs:
+                # the response reads from a channel created by THIS query: a channel kept in the store and shared by
+                # all queries delivers the chunks of an abandoned / partially read / concurrently pending query to
+                # the next one (chunks are counted, not attributed)
+                r = eb.operand(c.args[1])
+                created = any(x.kind == 'call' and x.name.rsplit('::', 1)[-1] in ('unbounded', 'bounded') for x in r.walk())
+                from_self = any(p.root == ('param', 1) and p.fields for p in r.places())
+                n += 1
+                ctx.check(created and not from_self, R, b, 'response-channel-created-per-query:' + ctor.rsplit('::', 1)[-1],
+                          repr(r)[:80],
+                          'the receiver handed to %s is %r: it is not the receiving end of a channel created by this call '
+                          '(a channel shared between queries mixes the answers of different queries)' % (
+                              ctor.rsplit('::', 1)[-1], r), c.ln)
             if not cs:
                 ctx.fail(R, b, 'expected-count:' + ctor, 'ANCHOR-MISSING: %s not constructed' % ctor)
     for name, cmd in (('find_usable', 'FindBaked'), ('lookup', 'Lookup')):
